@@ -57,6 +57,21 @@ def check_case(case, substep=1):
             if np.max(np.abs(Tr - case.T0)) > max(1e-9, 64 * 2.2e-16 * amp * (n + 1)) * (abs(case.T0) + 1):
                 bad.append(("uniform", "step %d: insulated uniform field drifted by %.3e" % (n, np.max(np.abs(Tr - case.T0)))))
         prev_min = min(prev_min, float(np.min(Tr)))
+    # the same bounds on what the user-level call returns: FiniteDifferenceImplicitThermalSolver.solve drives the
+    # sub-steps itself (solve_step_substep), so anything it does to the sub-step times shows here and only here
+    if not has_flux:
+        receiver, thermal, materials = tc.mods()
+        tube2, mat2, fluid2 = tc.build(case)
+        T0fn = None
+        if case.T0field is not None:
+            T0fn = prob.T0
+        solver = thermal.FiniteDifferenceImplicitThermalSolver(rtol=1e-13, atol=tc.auto_atol(case), miter=30, substep=substep)
+        Tall = np.array(solver.solve(tube2, mat2, fluid2, T0=T0fn))
+        for n in range(1, Tall.shape[0]):
+            if np.min(Tall[n]) < lo - slack or np.max(Tall[n]) > hi + slack:
+                bad.append(("range-solve" + suffix, "time %d of solver.solve(substep=%d): temperatures [%.9g, %.9g] leave the data range [%.9g, %.9g]" % (
+                    n, substep, np.min(Tall[n]), np.max(Tall[n]), lo, hi)))
+                break
     return bad
 
 
